@@ -152,7 +152,11 @@ impl<T: Send + Sync> AtomicIter<T> for ConIterOfVec<T> {
 
     #[inline(always)]
     fn progress_and_get_begin_idx(&self, number_to_fetch: usize) -> Option<usize> {
-        let begin_idx = self.counter().fetch_and_add(number_to_fetch);
+        // reserving more than the whole source is never needed; without the cap a huge request could
+        // make the counter wrap around
+        let begin_idx = self
+            .counter()
+            .fetch_and_add(number_to_fetch.min(self.initial_len()));
         match begin_idx.cmp(&self.initial_len()) {
             Ordering::Less => Some(begin_idx),
             _ => None,
